@@ -1,6 +1,6 @@
 //! Map history engine binary (C01, C02, C05, C09, C10, C12, C15, C19 — Map side).
 use engines::common::Ctx;
-use engines::fam::{Copyf, Large, Raw, Track};
+use engines::fam::{Copyf, Large, NoDrop, Raw, Track, Zst};
 use engines::maphist::{history, required_rows};
 
 fn main() {
@@ -24,6 +24,8 @@ fn main() {
             "copy" => engines::dispatch_n!(n, [0, 1, 2, 3, 4, 8], history, Copyf, (cx, hist, rng, max_steps)),
             "raw" => engines::dispatch_n!(n, [0, 1, 2, 3, 4, 8], history, Raw, (cx, hist, rng, max_steps)),
             "large" => engines::dispatch_n!(n, [1, 2, 4], history, Large, (cx, hist, rng, max_steps)),
+            "zst" => engines::dispatch_n!(n, [0, 1, 2, 3, 4, 8], history, Zst, (cx, hist, rng, max_steps)),
+            "nodrop" => engines::dispatch_n!(n, [0, 1, 2, 3, 4, 8], history, NoDrop, (cx, hist, rng, max_steps)),
             other => panic!("unknown family {}", other),
         }
     });
